@@ -18,10 +18,6 @@ theorem wfC_weaken2 (Γ : Env) (z1 z2 : Sym) (e : Expr) (h1 : lookup z1 Γ = non
 
 /-! ### shift_loop -/
 
-def shiftLoopOk (Γ : Env) (nlo : Expr) : List Stmt → Bool
-  | .loop _ _ _ _ _ :: _ => wfC Γ nlo
-  | _ => true
-
 theorem shiftLoop_local (nlo : Expr) (Γ : Env) (ss r : List Stmt)
     (hr : shiftLoop nlo ss = some r) (hok : shiftLoopOk Γ nlo ss = true)
     (hw : (wfL Γ ss).isSome = true) : (wfL Γ r).isSome = true := by
@@ -43,14 +39,6 @@ theorem shiftLoop_local (nlo : Expr) (Γ : Env) (ss r : List Stmt)
   · cases hr
 
 /-! ### divide_loop -/
-
-def divideLoopOk (Γ : Env) (tail : Nat) (io ii i3 : Sym) (ohi : Expr) (copy : List Stmt) :
-    List Stmt → Bool
-  | .loop i _ _ b _ :: _ =>
-    fresh Γ io && fresh Γ ii && io != ii && !(bindL b).contains io && !(bindL b).contains ii
-      && (tail != 0 || wfC Γ ohi)
-      && (tail < 2 || (fresh Γ i3 && !(bindL copy).contains i3 && (wfL ((i, none) :: Γ) copy).isSome))
-  | _ => true
 
 /-- the main nest of a divided loop is well formed -/
 theorem dividedMain_wf {Γ : Env} {q : Nat} {io ii i : Sym} {ohi lo hi : Expr} {b : List Stmt}
@@ -185,10 +173,6 @@ theorem divideLoop_local (q tail : Nat) (io ii i3 : Sym) (ohi : Expr) (copy : Li
 
 /-! ### unroll_loop -/
 
-def unrollLoopOk : List Stmt → Bool
-  | .loop _ _ _ b _ :: _ => (defNames b).isEmpty
-  | _ => true
-
 /-- one copy of the body with a literal for the iterator defines nothing (the body defines
     nothing at top level) and is well formed without the iterator -/
 theorem unrolledCopy_wf {Γ : Env} {i : Sym} {b : List Stmt} (v : Int)
@@ -233,10 +217,6 @@ theorem unrollLoop_local (Γ : Env) (ss r : List Stmt) (hr : unrollLoop ss = som
   · cases hr
 
 /-! ### mult_loops -/
-
-def multLoopsOk (Γ : Env) (k : Sym) : List Stmt → Bool
-  | .loop _ _ _ [.loop _ _ _ b _] _ :: _ => fresh Γ k && !(bindL b).contains k
-  | _ => true
 
 theorem multLoops_local (k : Sym) (Γ : Env) (ss r : List Stmt) (hr : multLoops k ss = some r)
     (hok : multLoopsOk Γ k ss = true) (hw : (wfL Γ ss).isSome = true) :
